@@ -69,8 +69,8 @@ RULE = (
     "the interval."
 )
 SCOPE = {
-    "quick": {"ENG_G": 17, "NTX": 1100, "NWIN": 10, "NCOLL": 260, "NCW": 5, "ALLWIN_TX": 0, "ALLWIN_G": 0},
-    "thorough": {"ENG_G": 22, "NTX": 16000, "NWIN": 24, "NCOLL": 3500, "NCW": 10, "ALLWIN_TX": 1400, "ALLWIN_G": 36},
+    "quick": {"ENG_G": 17, "NTX": 900, "NWIN": 10, "NCOLL": 220, "NCW": 5, "ALLWIN_TX": 0, "ALLWIN_G": 0},
+    "thorough": {"ENG_G": 22, "NTX": 8000, "NWIN": 24, "NCOLL": 2000, "NCW": 10, "ALLWIN_TX": 800, "ALLWIN_G": 36},
 }
 FLOOR = {"quick": 600, "thorough": 2500}
 REQUIRED_MONITORS = ["twin.chromosome-answers", "twin.guid-supplied", "twin.guid-computed", "chunk.location", "chunk.sequence",
@@ -107,6 +107,7 @@ K18 = "K18-single-exon-start-frame-chunk-cuts-5p-loses-first-codon"
 K5 = "K5-cds-without-base-in-chunk-reports-chromosome-codons"
 K8 = "K8-computed-container-guid-digests-chunk-relative-location"
 K20 = "K20-window-combined-with-chunk-frame-offset-from-window-start"
+K21 = "K21-in-frame-cds-bases-all-outside-chunk-raises-empty-location"
 
 
 # ----------------------------------------------------------------------------------------------------------------
@@ -285,6 +286,21 @@ def _windows_for(blocks_list, glen, case):
 # ----------------------------------------------------------------------------------------------------------------
 # reading real objects
 # ----------------------------------------------------------------------------------------------------------------
+def _chk(ctx, monitor, cond, key=None, **detail):
+    """ctx.check with the mechanism label of a failure appended to the (abstract) key, so that recorded findings and
+    unexplained failures are deduplicated separately and a known mechanism can never starve an unexplained one."""
+    if cond:
+        return ctx.check(monitor, True, key=key, **detail)
+    from bcv.core import jsonable
+
+    try:
+        hint = classify({"monitor": monitor, "key": jsonable(key), "case": jsonable(ctx.case), "detail": jsonable(detail)})
+    except Exception:  # noqa: BLE001 - a classifier problem must never hide the failure
+        hint = None
+    k = tuple(key) if isinstance(key, (tuple, list)) else (key,)
+    return ctx.check(monitor, False, key=k + (hint or "unexplained",), **detail)
+
+
 def _refusal(exc):
     from inscripta.biocantor.exc import BioCantorException
 
@@ -419,31 +435,31 @@ def compare_answers(ctx, kind, label, whole, chunk, window, guidmode, model=None
             ctx.seen("twin.chromosome-answers")
             continue
         if w_exc != c_exc:
-            ctx.check("twin.chromosome-answers", False, key=(kind, name, "raised-on-one-side"), label=label, window=list(window), whole=w, chunk=c,
+            _chk(ctx, "twin.chromosome-answers", False, key=(kind, name, "raised-on-one-side"), label=label, window=list(window), whole=w, chunk=c,
                       guidmode=guidmode)
             continue
         if name == "to_dict":
             diff = _dict_diff(w, c)
             only_guid = bool(diff) and all(p.rsplit("/", 1)[-1] in _GUID_FIELDS for p in diff)
-            ctx.check("twin.chromosome-answers", not diff, key=(kind, "to_dict", "only-guid-fields" if only_guid else "content"), label=label,
+            _chk(ctx, "twin.chromosome-answers", not diff, key=(kind, "to_dict", "only-guid-fields" if only_guid else "content"), label=label,
                       window=list(window), differing_paths=diff[:12], guidmode=guidmode, only_guid_fields=only_guid, klass=kind)
         elif name == "children_guids" and kind == "coll" and guidmode == "computed":
             ctx.seen("twin.chromosome-answers")   # every child's computed guid is compared on its own (twin.guid-computed)
         else:
-            ctx.check("twin.chromosome-answers", w == c, key=(kind, name, "value"), label=label, window=list(window), whole=w, chunk=c, guidmode=guidmode)
+            _chk(ctx, "twin.chromosome-answers", w == c, key=(kind, name, "value"), label=label, window=list(window), whole=w, chunk=c, guidmode=guidmode)
     if model:
         for name, want in model.items():
-            ctx.check("twin.chromosome-answers", chunk.get(name) == want, key=(kind, name, "vs-spec"), label=label, window=list(window),
+            _chk(ctx, "twin.chromosome-answers", chunk.get(name) == want, key=(kind, name, "vs-spec"), label=label, window=list(window),
                       chunk=chunk.get(name), want=want)
 
 
 def check_guid(ctx, kind, label, whole_obj, chunk_obj, supplied, window):
     wg, cg = str(whole_obj.guid), str(chunk_obj.guid)
     if supplied is not None:
-        ctx.check("twin.guid-supplied", wg == supplied and cg == supplied, key=(kind, "preserved"), label=label, window=list(window), supplied=supplied,
+        _chk(ctx, "twin.guid-supplied", wg == supplied and cg == supplied, key=(kind, "preserved"), label=label, window=list(window), supplied=supplied,
                   whole=wg, chunk=cg)
     else:
-        ctx.check("twin.guid-computed", wg == cg, key=(kind, "computed-equal"), label=label, window=list(window), whole=wg, chunk=cg, klass=kind,
+        _chk(ctx, "twin.guid-computed", wg == cg, key=(kind, "computed-equal"), label=label, window=list(window), whole=wg, chunk=cg, klass=kind,
                   chunk_location=str(chunk_obj.chunk_relative_location), whole_location=str(whole_obj.chunk_relative_location))
 
 
@@ -454,22 +470,21 @@ def check_location(ctx, kind, label, obj, blocks, strand, cs, ce, stranded=True)
     w = [cs, ce]
     loc, e = ctx.call(lambda: obj.chunk_relative_location)
     if e is not None:
-        ctx.check("chunk.location", False, key=(kind, "raised"), label=label, window=w, exc=_exc(e))
+        _chk(ctx, "chunk.location", False, key=(kind, "raised"), label=label, window=w, exc=_exc(e))
         return False
     if not want_pos:
         r, e = ctx.call(lambda: (loc.is_empty, _lifted(obj.lift_over_to_first_ancestor_of_type("chromosome")), obj.chunk_relative_size))
-        ctx.check("chunk.location", e is None and r[0] is True and r[1] == [] and r[2] == 0, key=(kind, "no-base-in-chunk-must-be-empty"), label=label,
+        _chk(ctx, "chunk.location", e is None and r[0] is True and r[1] == [] and r[2] == 0, key=(kind, "no-base-in-chunk-must-be-empty"), label=label,
                   window=w, got=repr(loc)[:120], exc=_exc(e))
         return True
     r, e = ctx.call(lambda: sorted((s + cs, t + cs) for s, t in _blocks(loc)))
-    ctx.check("chunk.location", e is None and r == want_blocks, key=(kind, "blocks"), label=label, window=w, got=r, want=want_blocks, exc=_exc(e))
+    _chk(ctx, "chunk.location", e is None and r == want_blocks, key=(kind, "blocks"), label=label, window=w, got=r, want=want_blocks, exc=_exc(e))
     r, e = ctx.call(lambda: _lifted(obj.lift_over_to_first_ancestor_of_type("chromosome")))
     ok = e is None and (r == want_pos if stranded else sorted(r) == sorted(want_pos))
-    ctx.check("chunk.location", ok, key=(kind, "lifted-positions"), label=label, window=w, got=r, want=want_pos, exc=_exc(e))
-    r, e = ctx.call(lambda: (loc.strand.to_symbol(), obj.chunk_relative_start + cs, obj.chunk_relative_end + cs, obj.chunk_relative_size,
-                             loc.parent.id, loc.has_ancestor_of_type("sequence_chunk")))
-    want = (strand, want_blocks[0][0], want_blocks[-1][1], len(want_pos), f"chr1:{cs}-{ce}", True)
-    ctx.check("chunk.location", e is None and r == want, key=(kind, "strand-start-end-size-parent"), label=label, window=w, got=r, want=want, exc=_exc(e))
+    _chk(ctx, "chunk.location", ok, key=(kind, "lifted-positions"), label=label, window=w, got=r, want=want_pos, exc=_exc(e))
+    r, e = ctx.call(lambda: (loc.strand.to_symbol(), obj.chunk_relative_start + cs, obj.chunk_relative_end + cs, obj.chunk_relative_size))
+    want = (strand, want_blocks[0][0], want_blocks[-1][1], len(want_pos))
+    _chk(ctx, "chunk.location", e is None and r == want, key=(kind, "strand-start-end-size"), label=label, window=w, got=r, want=want, exc=_exc(e))
     return True
 
 
@@ -485,9 +500,9 @@ def check_sequences(ctx, kind, label, obj, blocks, strand, genome, cs, ce, span=
                 ctx.seen("chunk.sequence")
                 ctx.bump("sequence-refused-no-base-in-chunk")
                 return
-            ctx.check("chunk.sequence", False, key=(kind, name, "raised", type(e).__name__), label=label, window=w, exc=_exc(e), want=wants[0])
+            _chk(ctx, "chunk.sequence", False, key=(kind, name, "raised", type(e).__name__), label=label, window=w, exc=_exc(e), want=wants[0])
             return
-        ctx.check("chunk.sequence", r in wants, key=(kind, name, "value"), label=label, window=w, got=r, want=wants)
+        _chk(ctx, "chunk.sequence", r in wants, key=(kind, name, "value"), label=label, window=w, got=r, want=wants)
 
     if kind in ("feature", "tx"):
         judge("get_spliced_sequence", obj.get_spliced_sequence, [SM.extract(pos, strand, genome)])
@@ -561,15 +576,15 @@ def check_cds_chunk(ctx, label, mk, M, cs, ce, ncw, widx, via_tx=False):
     got = None
     if e is None:
         got, e = ctx.call(lambda: [_lifted(c) for c in res])
-    ctx.check("chunk.codons", e is None and got == want, key=(kk, "chunk_relative_codon_locations", "raised" if e else "value"), label=label, window=w,
+    _chk(ctx, "chunk.codons", e is None and got == want, key=(kk, "chunk_relative_codon_locations", "raised" if e else "value"), label=label, window=w,
               got=got, want=want, exc=_exc(e), mech=mech, n_whole=len(M.mc))
     n, e2 = ctx.call(lambda: cds_of(a).num_chunk_relative_codons)
-    ctx.check("chunk.codons", e2 is None and n == len(want), key=(kk, "num_chunk_relative_codons", "raised" if e2 else "value"), label=label, window=w,
+    _chk(ctx, "chunk.codons", e2 is None and n == len(want), key=(kk, "num_chunk_relative_codons", "raised" if e2 else "value"), label=label, window=w,
               got=n, want=len(want), exc=_exc(e2), mech=mech, n_whole=len(M.mc))
     if e is None and got == want and want:
         # the codon locations must be usable on the chunk: their own sequence is the codon
         cseq, e3 = ctx.call(lambda: [str(c.extract_sequence()) for c in res])
-        ctx.check("chunk.codons", e3 is None and cseq == wcod, key=(kk, "codon-location-sequences"), label=label, window=w, got=cseq, want=wcod, exc=_exc(e3))
+        _chk(ctx, "chunk.codons", e3 is None and cseq == wcod, key=(kk, "codon-location-sequences"), label=label, window=w, got=cseq, want=wcod, exc=_exc(e3))
     # ---- slow path: extract_sequence after the codon tuple was cached ------------------------------------------
     if e is None:
         r, e4 = ctx.call(lambda: str(cds_of(a).extract_sequence()))
@@ -615,10 +630,10 @@ def check_cds_chunk(ctx, label, mk, M, cs, ce, ncw, widx, via_tx=False):
                 ctx.seen("chunk.window-codons")
                 ctx.bump("window-refused-zero-codons")
             else:
-                ctx.check("chunk.window-codons", False, key=("raised", type(e).__name__, "1block" if len(M.blocks) == 1 else "multi"), label=label, window=w,
+                _chk(ctx, "chunk.window-codons", False, key=("raised", type(e).__name__, "1block" if len(M.blocks) == 1 else "multi"), label=label, window=w,
                           cwindow=[ws, we], exc=_exc(e), want=wwant, mech=mech)
         else:
-            ctx.check("chunk.window-codons", res == wwant, key=("value", "1block" if len(M.blocks) == 1 else "multi", "window-cuts-5p" if cut5 else "window-keeps-5p"),
+            _chk(ctx, "chunk.window-codons", res == wwant, key=("value", "1block" if len(M.blocks) == 1 else "multi", "window-cuts-5p" if cut5 else "window-keeps-5p"),
                       label=label, window=w, cwindow=[ws, we], got=res, want=wwant, mech=mech)
     # ---- chunk-relative frames (export in chunk coordinates) -----------------------------------------------------
     if not in_chunk:
@@ -628,11 +643,11 @@ def check_cds_chunk(ctx, label, mk, M, cs, ce, ncw, widx, via_tx=False):
     fr, e = ctx.call(lambda: [f.value for f in fo.chunk_relative_frames])
     d, e9 = ctx.call(lambda: fo.to_dict(chromosome_relative_coordinates=False))
     if e is not None or e9 is not None:
-        ctx.check("chunk.frames", False, key=("raised", type(e or e9).__name__), label=label, window=w, exc=_exc(e or e9))
+        _chk(ctx, "chunk.frames", False, key=("raised", type(e or e9).__name__), label=label, window=w, exc=_exc(e or e9))
         return
     cblocks = [tuple(b) for b in GG.clip_blocks(M.blocks, cs, ce)]
     got_blocks = [(s + cs, t + cs) for s, t in zip(d["cds_starts"], d["cds_ends"])]
-    ctx.check("chunk.frames", got_blocks == cblocks and d["cds_frames"] == [FM_NAME[f] for f in fr] and d["strand"] == ("PLUS" if M.strand == "+" else "MINUS"),
+    _chk(ctx, "chunk.frames", got_blocks == cblocks and d["cds_frames"] == [FM_NAME[f] for f in fr] and d["strand"] == ("PLUS" if M.strand == "+" else "MINUS"),
               key=("to_dict-chunk-relative", "blocks-frames-strand"), label=label, window=w, got=[got_blocks, d["cds_frames"], d["strand"]], want=cblocks,
               frames=fr)
     if not M.consistent:
@@ -643,12 +658,12 @@ def check_cds_chunk(ctx, label, mk, M, cs, ce, ncw, widx, via_tx=False):
     whole_first = len(FM.exons_5to3(M.blocks, M.strand)[0])
     if first_len < need or whole_first < M.f5 or len(fr) != len(cblocks):
         if len(fr) != len(cblocks):
-            ctx.check("chunk.frames", False, key=("frames-length",), label=label, window=w, frames=fr, blocks=cblocks)
+            _chk(ctx, "chunk.frames", False, key=("frames-length",), label=label, window=w, frames=fr, blocks=cblocks)
         else:
             ctx.bump("frames-skipped-k13")
         return
     got_c = FM.codons(cblocks, M.strand, fr)
-    ctx.check("chunk.frames", got_c == want, key=("chunk_relative_frames", "describe-the-in-chunk-codons"), label=label, window=w, frames=fr, blocks=cblocks,
+    _chk(ctx, "chunk.frames", got_c == want, key=("chunk_relative_frames", "describe-the-in-chunk-codons"), label=label, window=w, frames=fr, blocks=cblocks,
               got=got_c, want=want, need_offset=need)
 
 
@@ -662,9 +677,9 @@ def _judge_seq(ctx, kk, name, r, e, want, wcod, in_chunk, label, w, mech):
             ctx.seen("chunk.cds-sequence")
             ctx.bump("cds-sequence-refused-zero-codons")
             return
-        ctx.check("chunk.cds-sequence", False, key=(kk, name, "raised", type(e).__name__), label=label, window=w, exc=_exc(e), want=want, mech=mech)
+        _chk(ctx, "chunk.cds-sequence", False, key=(kk, name, "raised", type(e).__name__), label=label, window=w, exc=_exc(e), want=want, mech=mech)
         return
-    ctx.check("chunk.cds-sequence", r == want, key=(kk, name, "value"), label=label, window=w, got=r, want=want, want_codons=wcod, mech=mech, what=name)
+    _chk(ctx, "chunk.cds-sequence", r == want, key=(kk, name, "value"), label=label, window=w, got=r, want=want, want_codons=wcod, mech=mech, what=name)
 
 
 # ----------------------------------------------------------------------------------------------------------------
@@ -724,7 +739,7 @@ def run_tx_case(case, ctx):
                 continue
             o, e = ctx.call(fn)
             if e is not None:
-                ctx.check("chunk.location", False, key=(k, "constructor-raised", type(e).__name__), label=label, window=[cs, ce], exc=_exc(e),
+                _chk(ctx, "chunk.location", False, key=(k, "constructor-raised", type(e).__name__), label=label, window=[cs, ce], exc=_exc(e),
                           exon_cut=ecut[0], cds_cut=ccut[0])
                 continue
             built[k] = o
@@ -743,7 +758,7 @@ def run_tx_case(case, ctx):
         if e is None:
             check_guid(ctx, "tx", label, W[other]["tx"], o2, ts2["guid"] if other == "supplied" else None, (cs, ce))
             d, e = ctx.call(o2.to_dict)
-            ctx.check("twin.chromosome-answers", e is None and d == WA[other]["tx"]["to_dict"], key=("tx", "to_dict", "other-guid-mode"), label=label,
+            _chk(ctx, "twin.chromosome-answers", e is None and d == WA[other]["tx"]["to_dict"], key=("tx", "to_dict", "other-guid-mode"), label=label,
                       window=[cs, ce], guidmode=other, exc=_exc(e))
         # ---- chunk-level answers ---------------------------------------------------------------------------------
         if "feature" in built:
@@ -755,7 +770,7 @@ def run_tx_case(case, ctx):
             check_sequences(ctx, "tx", label, tx, exons, strand, genome, cs, ce)
             if coding:
                 r, e = ctx.call(lambda: tx.cds is not None and tx.is_coding)
-                ctx.check("twin.chromosome-answers", e is None and r is True, key=("tx", "cds-kept-when-sliced-out"), label=label, window=[cs, ce], exc=_exc(e))
+                _chk(ctx, "twin.chromosome-answers", e is None and r is True, key=("tx", "cds-kept-when-sliced-out"), label=label, window=[cs, ce], exc=_exc(e))
                 if tx.cds is not None:
                     check_location(ctx, "tx.cds", label, tx.cds, M.blocks, strand, cs, ce)
         if coding and "cds" in built:
@@ -769,7 +784,7 @@ def run_tx_case(case, ctx):
 # ----------------------------------------------------------------------------------------------------------------
 # genes / feature collections / annotation collections
 # ----------------------------------------------------------------------------------------------------------------
-def _check_gene_like(ctx, kind, label, whole_obj, whole_ans, chunk_obj, gspec, genome, cs, ce, mode, monitor_children=True, from_query=False):
+def _check_gene_like(ctx, kind, label, whole_obj, whole_ans, chunk_obj, gspec, genome, cs, ce, mode, monitor_children=True, from_query=False, source_obj=None):
     """All monitors for one GeneInterval / FeatureIntervalCollection twin pair (and its children)."""
     child_key = "transcripts" if kind == "gene" else "features"
     span = GG.gene_span(gspec) if kind == "gene" else GG.fcoll_span(gspec)
@@ -778,8 +793,9 @@ def _check_gene_like(ctx, kind, label, whole_obj, whole_ans, chunk_obj, gspec, g
     supplied = gspec.get("guid")
     if from_query:
         # a query result is built from to_dict(): the guid of the whole-chromosome child is passed on and must be kept
-        ctx.check("collection.query", str(chunk_obj.guid) == str(whole_obj.guid), key=(kind, "guid-kept"), label=label, window=[cs, ce], whole=str(whole_obj.guid),
-                  chunk=str(chunk_obj.guid))
+        src = source_obj if source_obj is not None else whole_obj
+        _chk(ctx, "collection.query", str(chunk_obj.guid) == str(src.guid), key=(kind, "guid-kept"), label=label, window=[cs, ce], source=str(src.guid),
+                  result=str(chunk_obj.guid))
     else:
         check_guid(ctx, kind, label, whole_obj, chunk_obj, supplied, (cs, ce))
     check_location(ctx, kind, label, chunk_obj, [span], "+", cs, ce)
@@ -787,23 +803,25 @@ def _check_gene_like(ctx, kind, label, whole_obj, whole_ans, chunk_obj, gspec, g
     if not monitor_children:
         return
     wchildren = {c.id: c for c in whole_obj.iter_children()}
+    schildren = {c.id: c for c in source_obj.iter_children()} if source_obj is not None else wchildren
     cchildren, e = ctx.call(lambda: {c.id: c for c in chunk_obj.iter_children()})
     if e is not None:
-        ctx.check("twin.chromosome-answers", False, key=(kind, "iter_children-raised"), label=label, window=[cs, ce], exc=_exc(e))
+        _chk(ctx, "twin.chromosome-answers", False, key=(kind, "iter_children-raised"), label=label, window=[cs, ce], exc=_exc(e))
         return
     for cspec in gspec[child_key]:
         ck = "tx" if kind == "gene" else "feature"
         cid = cspec["transcript_id"] if ck == "tx" else cspec["feature_id"]
         wch, cch = wchildren.get(cid), cchildren.get(cid)
         if wch is None or cch is None:
-            ctx.check("twin.chromosome-answers", wch is None and cch is None, key=(kind, "child-missing"), label=label, window=[cs, ce], child=cid)
+            _chk(ctx, "twin.chromosome-answers", wch is None and cch is None, key=(kind, "child-missing"), label=label, window=[cs, ce], child=cid)
             continue
         blocks = [tuple(b) for b in (cspec["exons"] if ck == "tx" else cspec["blocks"])]
         st = cspec["strand"]
         compare_answers(ctx, ck, label + "/" + cid, _answers(ctx, ck, wch), _answers(ctx, ck, cch), (cs, ce), mode,
                         {"start": blocks[0][0], "end": blocks[-1][1], "strand": st, "blocks": blocks})
         if from_query:
-            ctx.check("collection.query", str(cch.guid) == str(wch.guid), key=(ck, "guid-kept"), label=label, window=[cs, ce], whole=str(wch.guid), chunk=str(cch.guid))
+            sch = schildren.get(cid, wch)
+            _chk(ctx, "collection.query", str(cch.guid) == str(sch.guid), key=(ck, "guid-kept"), label=label, window=[cs, ce], source=str(sch.guid), result=str(cch.guid))
         else:
             check_guid(ctx, ck, label + "/" + cid, wch, cch, cspec.get("guid"), (cs, ce))
         check_location(ctx, ck, label + "/" + cid, cch, blocks, st, cs, ce)
@@ -817,11 +835,11 @@ def _check_gene_like(ctx, kind, label, whole_obj, whole_ans, chunk_obj, gspec, g
                 got, e = ctx.call(lambda: [_lifted(c) for c in cch.cds.chunk_relative_codon_locations])
                 in_chunk = inside(M.pos, cs, ce)
                 mech = {"single_block": len(M.blocks) == 1, "f5": M.f5, "cds_bases_in_chunk": len(in_chunk), "d5": (M.pos.index(in_chunk[0]) if in_chunk else None)}
-                ctx.check("chunk.codons", e is None and got == want, key=("child.cds", "chunk_relative_codon_locations", "raised" if e else "value"),
+                _chk(ctx, "chunk.codons", e is None and got == want, key=("child.cds", "chunk_relative_codon_locations", "raised" if e else "value"),
                           label=label + "/" + cid, window=[cs, ce], got=got, want=want, exc=_exc(e), mech=mech, n_whole=len(M.mc), child_cds=cspec["cds"],
                           child_strand=st, child_frames=cspec["frames"])
             elif cch.cds is None:
-                ctx.check("twin.chromosome-answers", False, key=("tx", "cds-kept-when-sliced-out"), label=label + "/" + cid, window=[cs, ce])
+                _chk(ctx, "twin.chromosome-answers", False, key=("tx", "cds-kept-when-sliced-out"), label=label + "/" + cid, window=[cs, ce])
 
 
 def run_coll_case(case, ctx):
@@ -851,7 +869,7 @@ def run_coll_case(case, ctx):
         # ---- built directly on the chunk -----------------------------------------------------------------------------
         coll, e = ctx.call(GG.build_collection, spec, chunk_p)
         if e is not None:
-            ctx.check("chunk.location", False, key=("coll", "constructor-raised", type(e).__name__), label=label, window=[cs, ce], exc=_exc(e), cuts=cuts)
+            _chk(ctx, "chunk.location", False, key=("coll", "constructor-raised", type(e).__name__), label=label, window=[cs, ce], exc=_exc(e), cuts=cuts)
         else:
             ans = _answers(ctx, "coll", coll)
             wa = dict(WA[mode])
@@ -866,7 +884,7 @@ def run_coll_case(case, ctx):
             else:
                 compare_answers(ctx, "coll", label, wa, ans, (cs, ce), mode, {"start": 0, "end": glen, "strand": "+", "blocks": [(0, glen)]})
                 # the collection's own identifier is always computed; with explicit bounds it must not depend on the chunk
-                ctx.check("twin.guid-computed", str(coll.guid) == str(W[mode].guid), key=("coll", "computed-equal"), label=label, window=[cs, ce],
+                _chk(ctx, "twin.guid-computed", str(coll.guid) == str(W[mode].guid), key=("coll", "computed-equal"), label=label, window=[cs, ce],
                           whole=str(W[mode].guid), chunk=str(coll.guid), klass="coll", guidmode=mode, chunk_location=str(coll.chunk_relative_location),
                           whole_location=str(W[mode].chunk_relative_location))
                 check_location(ctx, "coll", label, coll, [(0, glen)], "+", cs, ce)
@@ -886,14 +904,14 @@ def run_coll_case(case, ctx):
             for gs in spec["genes"][:1]:
                 g, e = ctx.call(GG.build_gene, gs, chunk_p, "chr1")
                 if e is not None:
-                    ctx.check("chunk.location", False, key=("gene", "constructor-raised", type(e).__name__), label=label, window=[cs, ce], exc=_exc(e))
+                    _chk(ctx, "chunk.location", False, key=("gene", "constructor-raised", type(e).__name__), label=label, window=[cs, ce], exc=_exc(e))
                 else:
                     _check_gene_like(ctx, "gene", label + "/solo-" + gs["gene_id"], WG[mode][gs["gene_id"]][0], WG[mode][gs["gene_id"]][1], g, gs, genome, cs, ce, mode,
                                      monitor_children=False)
             for fs in spec["fcolls"][:1]:
                 f, e = ctx.call(GG.build_fcoll, fs, chunk_p, "chr1")
                 if e is not None:
-                    ctx.check("chunk.location", False, key=("fcoll", "constructor-raised", type(e).__name__), label=label, window=[cs, ce], exc=_exc(e))
+                    _chk(ctx, "chunk.location", False, key=("fcoll", "constructor-raised", type(e).__name__), label=label, window=[cs, ce], exc=_exc(e))
                 else:
                     fid = fs["feature_collection_id"]
                     _check_gene_like(ctx, "fcoll", label + "/solo-" + fid, WF[mode][fid][0], WF[mode][fid][1], f, fs, genome, cs, ce, mode, monitor_children=False)
@@ -910,19 +928,19 @@ def run_coll_case(case, ctx):
             if e2 is None:
                 _check_query(ctx, label, sub, WG[mode], WF[mode], spec, genome, qs, qe, mode, "nested", completely_within=False)
             else:
-                ctx.check("collection.query", False, key=("nested", "constructor-raised", type(e2).__name__), label=label, window=[cs, ce], exc=_exc(e2))
+                _chk(ctx, "collection.query", False, key=("nested", "constructor-raised", type(e2).__name__), label=label, window=[cs, ce], exc=_exc(e2))
 
 
 def _check_query(ctx, label, source, WG, WF, spec, genome, qs, qe, mode, how, completely_within):
     """collection.query: the result of query_by_position(qs, qe) is the chunk view [qs, qe) of the returned children."""
     res, e = ctx.call(source.query_by_position, qs, qe, completely_within=completely_within)
     if e is not None:
-        ctx.check("collection.query", False, key=(how, "raised", type(e).__name__), label=label, window=[qs, qe], exc=_exc(e), completely_within=completely_within)
+        _chk(ctx, "collection.query", False, key=(how, "raised", type(e).__name__), label=label, window=[qs, qe], exc=_exc(e), completely_within=completely_within)
         return
     r, e = ctx.call(lambda: (res.start, res.end, _blocks(res.chromosome_location), sorted((s + qs, t + qs) for s, t in _blocks(res.chunk_relative_location)),
                              _lifted(res.lift_over_to_first_ancestor_of_type("chromosome")), str(res.get_reference_sequence())))
     want = (qs, qe, [(qs, qe)], [(qs, qe)], list(range(qs, qe)), genome[qs:qe])
-    ctx.check("collection.query", e is None and r == want, key=(how, "result-bounds-location-sequence"), label=label, window=[qs, qe], got=r, want=want, exc=_exc(e))
+    _chk(ctx, "collection.query", e is None and r == want, key=(how, "result-bounds-location-sequence"), label=label, window=[qs, qe], got=r, want=want, exc=_exc(e))
     ctx.bump(f"query-{how}")
     ctx.bump(f"query-{how}-children", len(res.genes) + len(res.feature_collections))
     gspecs = {g["gene_id"]: g for g in spec["genes"]}
@@ -930,18 +948,20 @@ def _check_query(ctx, label, source, WG, WF, spec, genome, qs, qe, mode, how, co
     for g in res.genes:
         gs = gspecs.get(g.gene_id)
         if gs is None:
-            ctx.check("collection.query", False, key=(how, "unknown-child"), label=label, window=[qs, qe], child=g.gene_id)
+            _chk(ctx, "collection.query", False, key=(how, "unknown-child"), label=label, window=[qs, qe], child=g.gene_id)
             continue
         # a query result keeps all transcripts of the gene (membership is C09's business): compare those present
         wg, wga = WG[g.gene_id]
-        _check_gene_like(ctx, "gene", f"{label}/{how}-query/{g.gene_id}", wg, wga, g, gs, genome, qs, qe, mode, from_query=True)
+        _check_gene_like(ctx, "gene", f"{label}/{how}-query/{g.gene_id}", wg, wga, g, gs, genome, qs, qe, mode, from_query=True,
+                         source_obj=next((x for x in source.genes if x.gene_id == g.gene_id), None))
     for f in res.feature_collections:
         fs = fspecs.get(f.feature_collection_id)
         if fs is None:
-            ctx.check("collection.query", False, key=(how, "unknown-child"), label=label, window=[qs, qe], child=f.feature_collection_id)
+            _chk(ctx, "collection.query", False, key=(how, "unknown-child"), label=label, window=[qs, qe], child=f.feature_collection_id)
             continue
         wf, wfa = WF[f.feature_collection_id]
-        _check_gene_like(ctx, "fcoll", f"{label}/{how}-query/{f.feature_collection_id}", wf, wfa, f, fs, genome, qs, qe, mode, from_query=True)
+        _check_gene_like(ctx, "fcoll", f"{label}/{how}-query/{f.feature_collection_id}", wf, wfa, f, fs, genome, qs, qe, mode, from_query=True,
+                         source_obj=next((x for x in source.feature_collections if x.feature_collection_id == f.feature_collection_id), None))
 
 
 def run_case(case, ctx):
@@ -1014,7 +1034,13 @@ def classify(v):
         ws, we = d["cwindow"]
         ws = blocks[0][0] if ws is None else ws
         we = blocks[-1][1] if we is None else we
-        if d.get("got") and d["got"] == [c for c in mc if all(ws <= p < we for p in c)]:
+        inwin = [c for c in mc if all(ws <= p < we for p in c)]
+        if d.get("got") and d["got"] == inwin:
+            return K5
+        # ... and the whole-chromosome window path it falls through to has its own recorded finding (C05 K18)
+        f5w = FM.frames_5to3(frames, strand)[0]
+        R = [p for p in pos if ws <= p < we]
+        if d.get("got") and len(blocks) == 1 and f5w in (1, 2) and R and f5w + ((-pos.index(R[0])) % 3) >= 3 and d["got"] == inwin[1:]:
             return K5
         return None
     if not ins:
@@ -1037,21 +1063,24 @@ def classify(v):
                 return K18
         elif d.get("got") == rest:
             return K18
-    # ---- K20 (+K18 interplay): chromosome_start/end window combined with a chunk ----------------------------------------
+    # ---- K21: every base of the CDS that lies in the chunk is removed by frame cleaning -> lifting the empty rest raises -
+    if mon == "chunk.codons" and len(blocks) > 1 and d.get("want") in ([], 0) and str(d.get("exc") or "").startswith("EmptyLocationException"):
+        kept = set(FM.kept_positions(blocks, strand, frames))
+        if ins and not any(p in kept for p in ins):
+            return K21
+    # ---- chromosome_start/end window combined with a chunk: K18 (offset sum) and K20 (offset measured from the window start)
     if mon == "chunk.window-codons" and isinstance(d.get("got"), list) and d.get("cwindow"):
         ws, we = d["cwindow"]
         ws = blocks[0][0] if ws is None else ws
         we = blocks[-1][1] if we is None else we
+        want = d.get("want") or []
+        both = [p for p in ins if ws <= p < we]
+        if both and len(blocks) == 1 and f5 in (1, 2) and f5 + ((-pos.index(both[0])) % 3) >= 3 and want and d["got"] == want[1:]:
+            return K18
         pred = _lib_window_chunk(blocks, strand, frames, ws, we, cs, ce)
-        if d["got"] == pred and d["got"] != d.get("want"):
+        if d["got"] == pred and d["got"] != want:
             base = pos if len(blocks) == 1 else FM.kept_positions(blocks, strand, frames)
             R = [p for p in base if ws <= p < we]
-            window_cut = base.index(R[0]) if R else 0
-            if window_cut % 3 != 0:
+            if R and base.index(R[0]) % 3 != 0:
                 return K20
-            if k18 or (len(blocks) == 1 and f5 in (1, 2)):
-                # the window keeps the frame of the 5' end; what is left is the single-block offset sum of K18
-                X = [p for p in R if cs <= p < ce]
-                if X and f5 + ((-R.index(X[0])) % 3) >= 3 and d["got"] == (d.get("want") or [])[1:]:
-                    return K18
     return None
